@@ -1,7 +1,7 @@
 CONSTANTS
   GridA = {50, 100, 120}
   MaxNA = 3
-  GridS = {50, 100}
+  GridS = {50}
   MaxNS = 2
   GridE = {100}
   EligHL <- HLSmall
@@ -10,10 +10,12 @@ CONSTANTS
   MinConfs = {0, 1, 2}
   FlowsE = {"send", "late"}
   ModA = 120
-  ModS = 160
+  ModS = 30
   ModE = 200
   LateFactor = 2
   Seed = 1
+  NWide = 400
+  CheckFixed = FALSE
   CexScale = 1
 INIT Init
 NEXT Next
